@@ -12,8 +12,8 @@ are results).
 
 * layer 1 (`*_generated*`, `bv_decide`, every input): the slot written, the four words stored and nothing else touched, the
   successor of the counter including the fold at `0x7fffffff`, `get_line`'s rejection test and index arithmetic (with the
-  `unsigned` wrap of `n + head`), the words handed to the formatter, the iterations of `mlog_dump`'s loop;
-* layer 2 (`*_tie`): those references are `Librfn.Model.Mlog` (`log`, `logNice`, `clear`, `getLineInt`, the prefix of `dump`) on
+  `unsigned` wrap of `n + head`), the words handed to the formatter, one iteration of `mlog_dump`'s loop (the step function of its recursive definition);
+* layer 2 (`*_tie`): those references are `Librfn.Model.Mlog` (`log`, `logNice`, `clear`, `getLineInt`, and `dump` — by induction over the recursive loop, all 256 lines) on
   the memory read as 256 records.
 -/
 namespace Librfn.C20.Tie
@@ -177,96 +177,59 @@ theorem mlog_get_line_generated_mem (line : BitVec 64) (h n : BitVec 32) (r : Bi
   unfold mlog_get_line
   rfl
 
-/-- `mlog_dump`, the first three iterations of `for (i = 0; (line = get_line(i)); i++) fprintf(f, line->fmt, line->arg[0..2])`:
-    iteration `i` prints exactly when `get_line(i)` is not rejected; a fourth iteration is needed exactly when `get_line(3)` is not -/
-theorem mlog_dump_generated (line : BitVec 64) (h : BitVec 32) (f : BitVec 64) (r1 r2 r3 : BitVec 32) (mem : Mem) (hb : baseOkBV line = true) :
-    (mlog_dump line h f r1 r2 r3 mem).ub = false ∧ (mlog_dump line h f r1 r2 r3 mem).log_head = h ∧
-    (mlog_dump line h f r1 r2 r3 mem).exh = (!rejectBV h 3#32) ∧
-    (mlog_dump line h f r1 r2 r3 mem).fprintf_called_1 = (!rejectBV h 0#32) ∧
-    (mlog_dump line h f r1 r2 r3 mem).fprintf_called_2 = (!rejectBV h 1#32) ∧
-    (mlog_dump line h f r1 r2 r3 mem).fprintf_called_3 = (!rejectBV h 2#32) ∧
-    (mlog_dump line h f r1 r2 r3 mem).fprintf_arg_1_0 = f ∧ (mlog_dump line h f r1 r2 r3 mem).fprintf_arg_2_0 = f ∧
-    (mlog_dump line h f r1 r2 r3 mem).fprintf_arg_3_0 = f := by
+/-! ### `mlog_dump`: the loop is the recursive definition `mlog_dump.loop1` over the step function `mlog_dump.loop1.step`
+(`fprintf`'s return value is an input indexed by the iteration number, the executed calls are collected in `loop_trace`) -/
+
+abbrev Rec := BitVec 64 × BitVec 64 × BitVec 64 × BitVec 64
+def call4 (name : String) (pre : List (BitVec 64)) (m : Rec) (ret : BitVec 64) : ExtCall :=
+  ⟨name, pre ++ [m.1, m.2.1, m.2.2.1, m.2.2.2], ret⟩
+
+theorem dump_step_generated (R : Nat → BitVec 32) (mem : Mem) (line : BitVec 64) (h : BitVec 32) (f : BitVec 64) (ub : Bool)
+    (i : BitVec 32) (tr : List ExtCall) (it : Nat) (hb : baseOkBV line = true) :
+    (mlog_dump.loop1.step R mem line h f ub i tr it).2 = rejectBV h i ∧
+    (mlog_dump.loop1.step R mem line h f ub i tr it).1.i = (if rejectBV h i then i else i + 1#32) ∧
+    (mlog_dump.loop1.step R mem line h f ub i tr it).1.ub = ub ∧
+    (mlog_dump.loop1.step R mem line h f ub i tr it).1.exh = false := by
   unfold baseOkBV at hb
-  unfold mlog_dump rejectBV
+  unfold mlog_dump.loop1.step rejectBV
   bv_decide (config := { timeout := 60 })
 
-theorem mlog_dump_generated_mem (line : BitVec 64) (h : BitVec 32) (f : BitVec 64) (r1 r2 r3 : BitVec 32) (mem : Mem) :
-    (mlog_dump line h f r1 r2 r3 mem).mem = mem := by
-  unfold mlog_dump
-  rfl
+theorem dump_step_iter (R : Nat → BitVec 32) (mem : Mem) (line : BitVec 64) (h : BitVec 32) (f : BitVec 64) (ub : Bool)
+    (i : BitVec 32) (tr : List ExtCall) (it : Nat) :
+    (mlog_dump.loop1.step R mem line h f ub i tr it).1.iter = it + 1 := rfl
 
-theorem mlog_dump_generated_args1 (line : BitVec 64) (h : BitVec 32) (f : BitVec 64) (r1 r2 r3 : BitVec 32) (mem : Mem) (hb : baseOkBV line = true)
-    (hr : rejectBV h 0#32 = false) :
-    (mlog_dump line h f r1 r2 r3 mem).fprintf_arg_1_1 = wordAt mem line (lineIdxBV h 0#32) 0#64 ∧
-    (mlog_dump line h f r1 r2 r3 mem).fprintf_arg_1_2 = wordAt mem line (lineIdxBV h 0#32) 8#64 ∧
-    (mlog_dump line h f r1 r2 r3 mem).fprintf_arg_1_3 = wordAt mem line (lineIdxBV h 0#32) 16#64 ∧
-    (mlog_dump line h f r1 r2 r3 mem).fprintf_arg_1_4 = wordAt mem line (lineIdxBV h 0#32) 24#64 := by
+theorem dump_step_trace_stop (R : Nat → BitVec 32) (mem : Mem) (line : BitVec 64) (h : BitVec 32) (f : BitVec 64) (ub : Bool)
+    (i : BitVec 32) (tr : List ExtCall) (it : Nat) (hb : baseOkBV line = true) (hr : rejectBV h i = true) :
+    (mlog_dump.loop1.step R mem line h f ub i tr it).1.trace = tr := by
+  have hs := (dump_step_generated R mem line h f ub i tr it hb).1
+  unfold mlog_dump.loop1.step at hs ⊢
+  simp only [] at hs ⊢
+  rw [hs, hr]
+  simp
+
+theorem call_eq (mem : Mem) (tr : List ExtCall) (f a0 a1 a2 a3 b0 b1 b2 b3 r : BitVec 64)
+    (h0 : a0 = b0) (h1 : a1 = b1) (h2 : a2 = b2) (h3 : a3 = b3) :
+    tr ++ [(⟨"fprintf", [f, Mem.load64 mem a0, Mem.load64 mem a1, Mem.load64 mem a2, Mem.load64 mem a3], r⟩ : ExtCall)] =
+    tr ++ [⟨"fprintf", [f, Mem.load64 mem b0, Mem.load64 mem b1, Mem.load64 mem b2, Mem.load64 mem b3], r⟩] := by
+  subst h0 h1 h2 h3; rfl
+
+theorem dump_step_trace_go (R : Nat → BitVec 32) (mem : Mem) (line : BitVec 64) (h : BitVec 32) (f : BitVec 64) (ub : Bool)
+    (i : BitVec 32) (tr : List ExtCall) (it : Nat) (hb : baseOkBV line = true) (hr : rejectBV h i = false) :
+    (mlog_dump.loop1.step R mem line h f ub i tr it).1.trace =
+      tr ++ [call4 "fprintf" [f] (wordAt mem line (lineIdxBV h i) 0#64, wordAt mem line (lineIdxBV h i) 8#64,
+        wordAt mem line (lineIdxBV h i) 16#64, wordAt mem line (lineIdxBV h i) 24#64) ((R it).signExtend 64)] := by
+  have hs := (dump_step_generated R mem line h f ub i tr it hb).1
+  unfold mlog_dump.loop1.step at hs ⊢
+  simp only [] at hs ⊢
+  rw [hs, hr]
+  simp only [Bool.not_false, if_true, call4, BitVec.setWidth_eq, List.cons_append, List.nil_append, wordAt]
   unfold baseOkBV at hb
   unfold rejectBV at hr
-  have h0 : ∃ a, (mlog_dump line h f r1 r2 r3 mem).fprintf_arg_1_1 = Mem.load64 mem a ∧ a = line + lineIdxBV h 0#32 * 32#64 + 0#64 :=
-    ⟨_, rfl, by unfold lineIdxBV; bv_decide (config := { timeout := 60 })⟩
-  have h1 : ∃ a, (mlog_dump line h f r1 r2 r3 mem).fprintf_arg_1_2 = Mem.load64 mem a ∧ a = line + lineIdxBV h 0#32 * 32#64 + 8#64 :=
-    ⟨_, rfl, by unfold lineIdxBV; bv_decide (config := { timeout := 60 })⟩
-  have h2 : ∃ a, (mlog_dump line h f r1 r2 r3 mem).fprintf_arg_1_3 = Mem.load64 mem a ∧ a = line + lineIdxBV h 0#32 * 32#64 + 16#64 :=
-    ⟨_, rfl, by unfold lineIdxBV; bv_decide (config := { timeout := 60 })⟩
-  have h3 : ∃ a, (mlog_dump line h f r1 r2 r3 mem).fprintf_arg_1_4 = Mem.load64 mem a ∧ a = line + lineIdxBV h 0#32 * 32#64 + 24#64 :=
-    ⟨_, rfl, by unfold lineIdxBV; bv_decide (config := { timeout := 60 })⟩
-  obtain ⟨_, e0, rfl⟩ := h0
-  obtain ⟨_, e1, rfl⟩ := h1
-  obtain ⟨_, e2, rfl⟩ := h2
-  obtain ⟨_, e3, rfl⟩ := h3
-  exact ⟨e0, e1, e2, e3⟩
-
-theorem mlog_dump_generated_args2 (line : BitVec 64) (h : BitVec 32) (f : BitVec 64) (r1 r2 r3 : BitVec 32) (mem : Mem) (hb : baseOkBV line = true)
-    (hr : rejectBV h 1#32 = false) :
-    (mlog_dump line h f r1 r2 r3 mem).fprintf_arg_2_1 = wordAt mem line (lineIdxBV h 1#32) 0#64 ∧
-    (mlog_dump line h f r1 r2 r3 mem).fprintf_arg_2_2 = wordAt mem line (lineIdxBV h 1#32) 8#64 ∧
-    (mlog_dump line h f r1 r2 r3 mem).fprintf_arg_2_3 = wordAt mem line (lineIdxBV h 1#32) 16#64 ∧
-    (mlog_dump line h f r1 r2 r3 mem).fprintf_arg_2_4 = wordAt mem line (lineIdxBV h 1#32) 24#64 := by
-  unfold baseOkBV at hb
-  unfold rejectBV at hr
-  have h0 : ∃ a, (mlog_dump line h f r1 r2 r3 mem).fprintf_arg_2_1 = Mem.load64 mem a ∧ a = line + lineIdxBV h 1#32 * 32#64 + 0#64 :=
-    ⟨_, rfl, by unfold lineIdxBV; bv_decide (config := { timeout := 60 })⟩
-  have h1 : ∃ a, (mlog_dump line h f r1 r2 r3 mem).fprintf_arg_2_2 = Mem.load64 mem a ∧ a = line + lineIdxBV h 1#32 * 32#64 + 8#64 :=
-    ⟨_, rfl, by unfold lineIdxBV; bv_decide (config := { timeout := 60 })⟩
-  have h2 : ∃ a, (mlog_dump line h f r1 r2 r3 mem).fprintf_arg_2_3 = Mem.load64 mem a ∧ a = line + lineIdxBV h 1#32 * 32#64 + 16#64 :=
-    ⟨_, rfl, by unfold lineIdxBV; bv_decide (config := { timeout := 60 })⟩
-  have h3 : ∃ a, (mlog_dump line h f r1 r2 r3 mem).fprintf_arg_2_4 = Mem.load64 mem a ∧ a = line + lineIdxBV h 1#32 * 32#64 + 24#64 :=
-    ⟨_, rfl, by unfold lineIdxBV; bv_decide (config := { timeout := 60 })⟩
-  obtain ⟨_, e0, rfl⟩ := h0
-  obtain ⟨_, e1, rfl⟩ := h1
-  obtain ⟨_, e2, rfl⟩ := h2
-  obtain ⟨_, e3, rfl⟩ := h3
-  exact ⟨e0, e1, e2, e3⟩
-
-theorem mlog_dump_generated_args3 (line : BitVec 64) (h : BitVec 32) (f : BitVec 64) (r1 r2 r3 : BitVec 32) (mem : Mem) (hb : baseOkBV line = true)
-    (hr : rejectBV h 2#32 = false) :
-    (mlog_dump line h f r1 r2 r3 mem).fprintf_arg_3_1 = wordAt mem line (lineIdxBV h 2#32) 0#64 ∧
-    (mlog_dump line h f r1 r2 r3 mem).fprintf_arg_3_2 = wordAt mem line (lineIdxBV h 2#32) 8#64 ∧
-    (mlog_dump line h f r1 r2 r3 mem).fprintf_arg_3_3 = wordAt mem line (lineIdxBV h 2#32) 16#64 ∧
-    (mlog_dump line h f r1 r2 r3 mem).fprintf_arg_3_4 = wordAt mem line (lineIdxBV h 2#32) 24#64 := by
-  unfold baseOkBV at hb
-  unfold rejectBV at hr
-  have h0 : ∃ a, (mlog_dump line h f r1 r2 r3 mem).fprintf_arg_3_1 = Mem.load64 mem a ∧ a = line + lineIdxBV h 2#32 * 32#64 + 0#64 :=
-    ⟨_, rfl, by unfold lineIdxBV; bv_decide (config := { timeout := 60 })⟩
-  have h1 : ∃ a, (mlog_dump line h f r1 r2 r3 mem).fprintf_arg_3_2 = Mem.load64 mem a ∧ a = line + lineIdxBV h 2#32 * 32#64 + 8#64 :=
-    ⟨_, rfl, by unfold lineIdxBV; bv_decide (config := { timeout := 60 })⟩
-  have h2 : ∃ a, (mlog_dump line h f r1 r2 r3 mem).fprintf_arg_3_3 = Mem.load64 mem a ∧ a = line + lineIdxBV h 2#32 * 32#64 + 16#64 :=
-    ⟨_, rfl, by unfold lineIdxBV; bv_decide (config := { timeout := 60 })⟩
-  have h3 : ∃ a, (mlog_dump line h f r1 r2 r3 mem).fprintf_arg_3_4 = Mem.load64 mem a ∧ a = line + lineIdxBV h 2#32 * 32#64 + 24#64 :=
-    ⟨_, rfl, by unfold lineIdxBV; bv_decide (config := { timeout := 60 })⟩
-  obtain ⟨_, e0, rfl⟩ := h0
-  obtain ⟨_, e1, rfl⟩ := h1
-  obtain ⟨_, e2, rfl⟩ := h2
-  obtain ⟨_, e3, rfl⟩ := h3
-  exact ⟨e0, e1, e2, e3⟩
+  apply call_eq <;> (unfold lineIdxBV; bv_decide (config := { timeout := 60 }))
 
 /-! ## layer 2: the references are the model -/
 open Librfn.Model.Mlog
 
-/-- one recorded message: `(fmt, arg[0], arg[1], arg[2])` -/
-abbrev Rec := BitVec 64 × BitVec 64 × BitVec 64 × BitVec 64
 
 /-- line `i` of the array as a record -/
 def recAt (mem : Mem) (line : BitVec 64) (i : Nat) : Rec :=
@@ -413,9 +376,6 @@ theorem getLine_rec (mem : Mem) (line : BitVec 64) (h : BitVec 32) (s : St Rec) 
     rw [hA.lines _ (Nat.mod_lt _ (by omega)), lineIdxBV_eq]
     rfl
 
-def call4 (name : String) (pre : List (BitVec 64)) (m : Rec) (ret : BitVec 64) : ExtCall :=
-  ⟨name, pre ++ [m.1, m.2.1, m.2.2.1, m.2.2.2], ret⟩
-
 /-- **tie T, `mlog_get_line(int n)`**: the formatter is called exactly when the model's `getLineInt` finds a line, with that line's
     format and arguments; NULL otherwise; nothing is modified -/
 theorem get_line_tie (mem : Mem) (line : BitVec 64) (h : BitVec 32) (s : St Rec) (hA : Abs mem line h s) (hb : baseOkBV line = true)
@@ -444,43 +404,100 @@ theorem get_line_tie (mem : Mem) (line : BitVec 64) (h : BitVec 32) (s : St Rec)
     rw [h4, hr, a0, a1, a2, a3]
     simp only [Bool.not_false, if_true, BitVec.setWidth_eq, call4, List.nil_append]
 
-/-- the `fprintf` a dump iteration performs for the model's line `i`, if there is one -/
-def dumpCall (s : St Rec) (f : BitVec 64) (i : Nat) (ret : BitVec 32) : List ExtCall :=
-  match getLine s i with
-  | none => []
-  | some m => [call4 "fprintf" [f] m (ret.signExtend 64)]
+/-- the `fprintf` calls a dump performs for the model's lines `ms`, the `k`-th returning `R (it + k)` -/
+def dumpCalls (f : BitVec 64) (R : Nat → BitVec 32) : List Rec → Nat → List ExtCall
+  | [], _ => []
+  | m :: ms, it => call4 "fprintf" [f] m ((R it).signExtend 64) :: dumpCalls f R ms (it + 1)
 
-theorem dumpCall_eq (mem : Mem) (line : BitVec 64) (h : BitVec 32) (s : St Rec) (hA : Abs mem line h s) (f : BitVec 64) (n : BitVec 32)
-    (ret : BitVec 32) (called : Bool) (x1 x2 x3 x4 : BitVec 64) (hc : called = !rejectBV h n)
-    (hx : rejectBV h n = false → x1 = wordAt mem line (lineIdxBV h n) 0#64 ∧ x2 = wordAt mem line (lineIdxBV h n) 8#64 ∧
-      x3 = wordAt mem line (lineIdxBV h n) 16#64 ∧ x4 = wordAt mem line (lineIdxBV h n) 24#64) :
-    (if called then [(⟨"fprintf", [f, x1, x2, x3, x4], ret.signExtend 64⟩ : ExtCall)] else []) = dumpCall s f n.toNat ret := by
-  unfold dumpCall
-  rw [getLine_rec mem line h s hA n, hc]
-  cases hr : rejectBV h n with
-  | true => rfl
-  | false =>
-    obtain ⟨e1, e2, e3, e4⟩ := hx hr
-    simp only [Bool.not_false, if_true, Bool.false_eq_true, if_false, call4, e1, e2, e3, e4, List.cons_append, List.nil_append]
+theorem ofNat32_succ (i : Nat) : BitVec.ofNat 32 (i + 1) = BitVec.ofNat 32 i + 1#32 := by
+  apply BitVec.eq_of_toNat_eq
+  simp [BitVec.toNat_add, BitVec.toNat_ofNat]
 
-/-- **tie T, `mlog_dump`** (loop unrolled three times): the iterations print the model's lines 0, 1, 2 as far as they exist, in
-    order, to the stream given; the loop needs a fourth iteration exactly when the model has a line 3; nothing is modified -/
+/-- the dump loop, any number of iterations: the calls made are the model's `dumpFrom`, in order; it runs out of fuel exactly when
+    the model's loop does -/
+theorem dump_loop_tie (mem : Mem) (line : BitVec 64) (h : BitVec 32) (s : St Rec) (hA : Abs mem line h s) (hb : baseOkBV line = true)
+    (f : BitVec 64) (R : Nat → BitVec 32) :
+    ∀ (fuel i : Nat) (ub : Bool) (tr : List ExtCall) (it : Nat), i ≤ 256 →
+      (mlog_dump.loop1 R mem line h f fuel ub (BitVec.ofNat 32 i) tr it).trace = tr ++ dumpCalls f R (dumpFrom s fuel i) it ∧
+      (mlog_dump.loop1 R mem line h f fuel ub (BitVec.ofNat 32 i) tr it).ub = ub ∧
+      (mlog_dump.loop1 R mem line h f fuel ub (BitVec.ofNat 32 i) tr it).exh = decide ((dumpFrom s fuel i).length = fuel) := by
+  intro fuel
+  induction fuel with
+  | zero => intro i ub tr it _; simp [mlog_dump.loop1, dumpFrom, dumpCalls]
+  | succ fuel ih =>
+    intro i ub tr it hi
+    have hn : (BitVec.ofNat 32 i).toNat = i := by rw [BitVec.toNat_ofNat]; omega
+    have hg := getLine_rec mem line h s hA (BitVec.ofNat 32 i)
+    rw [hn] at hg
+    obtain ⟨g1, g2, g3, g4⟩ := dump_step_generated R mem line h f ub (BitVec.ofNat 32 i) tr it hb
+    have hunf : mlog_dump.loop1 R mem line h f (fuel + 1) ub (BitVec.ofNat 32 i) tr it =
+        (if (mlog_dump.loop1.step R mem line h f ub (BitVec.ofNat 32 i) tr it).2 then (mlog_dump.loop1.step R mem line h f ub (BitVec.ofNat 32 i) tr it).1
+         else mlog_dump.loop1 R mem line h f fuel (mlog_dump.loop1.step R mem line h f ub (BitVec.ofNat 32 i) tr it).1.ub
+           (mlog_dump.loop1.step R mem line h f ub (BitVec.ofNat 32 i) tr it).1.i
+           (mlog_dump.loop1.step R mem line h f ub (BitVec.ofNat 32 i) tr it).1.trace
+           (mlog_dump.loop1.step R mem line h f ub (BitVec.ofNat 32 i) tr it).1.iter) := rfl
+    rw [hunf, g1]
+    cases hr : rejectBV h (BitVec.ofNat 32 i) with
+    | true =>
+      rw [hr] at hg
+      simp only [if_true] at hg ⊢
+      have hd : dumpFrom s (fuel + 1) i = [] := by simp only [dumpFrom, hg]
+      rw [hd, dump_step_trace_stop R mem line h f ub _ tr it hb hr, g3, g4]
+      simp [dumpCalls]
+    | false =>
+      rw [hr] at hg g2
+      simp only [Bool.false_eq_true, if_false] at hg g2 ⊢
+      have hi' : i < 256 := by
+        have hnot : ¬ ((BitVec.ofNat 32 i).toNat ≥ h.toNat ∨ (BitVec.ofNat 32 i).toNat ≥ 256) := by
+          intro hx
+          have := (rejectBV_iff h (BitVec.ofNat 32 i)).2 hx
+          rw [hr] at this; cases this
+        rw [hn] at hnot; omega
+      have hd : dumpFrom s (fuel + 1) i =
+          (wordAt mem line (lineIdxBV h (BitVec.ofNat 32 i)) 0#64, wordAt mem line (lineIdxBV h (BitVec.ofNat 32 i)) 8#64,
+           wordAt mem line (lineIdxBV h (BitVec.ofNat 32 i)) 16#64, wordAt mem line (lineIdxBV h (BitVec.ofNat 32 i)) 24#64)
+            :: dumpFrom s fuel (i + 1) := by simp only [dumpFrom, hg]
+      rw [hd, dump_step_trace_go R mem line h f ub _ tr it hb hr, g2, g3, dump_step_iter, ← ofNat32_succ]
+      obtain ⟨k1, k2, k3⟩ := ih (i + 1) ub (tr ++ [call4 "fprintf" [f]
+        (wordAt mem line (lineIdxBV h (BitVec.ofNat 32 i)) 0#64, wordAt mem line (lineIdxBV h (BitVec.ofNat 32 i)) 8#64,
+         wordAt mem line (lineIdxBV h (BitVec.ofNat 32 i)) 16#64, wordAt mem line (lineIdxBV h (BitVec.ofNat 32 i)) 24#64)
+        ((R it).signExtend 64)]) (it + 1) (by omega)
+      refine ⟨?_, k2, ?_⟩
+      · rw [k1, List.append_assoc]; rfl
+      · rw [k3]; simp
+
+theorem dumpFrom_length (s : St Rec) : ∀ (fuel i : Nat), (dumpFrom s fuel i).length + i ≤ max 256 i := by
+  intro fuel
+  induction fuel with
+  | zero => intro i; simp [dumpFrom]; omega
+  | succ fuel ih =>
+    intro i
+    simp only [dumpFrom]
+    cases hg : getLine s i with
+    | none => simp; omega
+    | some m =>
+      have hi : i < 256 := by
+        unfold getLine at hg
+        split at hg
+        · cases hg
+        · rename_i hc; omega
+      have := ih (i + 1)
+      simp only [List.length_cons]
+      omega
+
+/-- **tie T, `mlog_dump`** (the loop as a recursive definition; 257 iterations always suffice): `fprintf` is called once per line of
+    the model's `dump`, in order, with the stream given and that line's format and arguments; nothing is modified -/
 theorem dump_tie (mem : Mem) (line : BitVec 64) (h : BitVec 32) (s : St Rec) (hA : Abs mem line h s) (hb : baseOkBV line = true)
-    (f : BitVec 64) (r1 r2 r3 : BitVec 32) :
-    (mlog_dump line h f r1 r2 r3 mem).ub = false ∧ (mlog_dump line h f r1 r2 r3 mem).log_head = h ∧
-    (mlog_dump line h f r1 r2 r3 mem).mem = mem ∧
-    (mlog_dump line h f r1 r2 r3 mem).exh = (getLine s 3).isSome ∧
-    mlog_dump.trace (mlog_dump line h f r1 r2 r3 mem) r1 r2 r3 = dumpCall s f 0 r1 ++ dumpCall s f 1 r2 ++ dumpCall s f 2 r3 := by
-  obtain ⟨h1, h2, h3, c1, c2, c3, f1, f2, f3⟩ := mlog_dump_generated line h f r1 r2 r3 mem hb
-  refine ⟨h1, h2, mlog_dump_generated_mem line h f r1 r2 r3 mem, ?_, ?_⟩
-  · have e3 : getLine s 3 = getLine s (3#32).toNat := rfl
-    rw [h3, e3, getLine_rec mem line h s hA 3#32]
-    cases hr : rejectBV h 3#32 <;> rfl
-  · unfold mlog_dump.trace
-    simp only [BitVec.setWidth_eq, f1, f2, f3]
-    rw [dumpCall_eq mem line h s hA f 0#32 r1 _ _ _ _ _ c1 (mlog_dump_generated_args1 line h f r1 r2 r3 mem hb),
-      dumpCall_eq mem line h s hA f 1#32 r2 _ _ _ _ _ c2 (mlog_dump_generated_args2 line h f r1 r2 r3 mem hb),
-      dumpCall_eq mem line h s hA f 2#32 r3 _ _ _ _ _ c3 (mlog_dump_generated_args3 line h f r1 r2 r3 mem hb)]
-    rfl
+    (f : BitVec 64) (R : Nat → BitVec 32) :
+    (mlog_dump 257 line h f R mem).ub = false ∧ (mlog_dump 257 line h f R mem).exh = false ∧
+    (mlog_dump 257 line h f R mem).log_head = h ∧ (mlog_dump 257 line h f R mem).mem = mem ∧
+    (mlog_dump 257 line h f R mem).loop_trace = dumpCalls f R (dump s) 0 := by
+  obtain ⟨k1, k2, k3⟩ := dump_loop_tie mem line h s hA hb f R 257 0 false [] 0 (by omega)
+  have hl := dumpFrom_length s 257 0
+  refine ⟨k2, ?_, rfl, rfl, ?_⟩
+  · show (mlog_dump.loop1 R mem line h f 257 false (BitVec.ofNat 32 0) [] 0).exh = false
+    rw [k3]; simp; omega
+  · show (mlog_dump.loop1 R mem line h f 257 false (BitVec.ofNat 32 0) [] 0).trace = _
+    rw [k1]; rfl
 
 end Librfn.C20.Tie
